@@ -38,7 +38,7 @@ import asyncssh
 from asyncssh import pbe as _pbe
 from asyncssh import public_key as _pk
 
-from ..core import CaseResult, Family, HarnessError, Violation, canon
+from ..core import CaseResult, Family, HarnessError, Violation, canon, pick
 
 warnings.filterwarnings('ignore', module='asyncssh')
 warnings.filterwarnings('ignore', module='cryptography')
@@ -449,14 +449,14 @@ def scalars(bits: int):
 
     return st.one_of(st.integers(0, 2 ** bits), st.integers(0, 2 ** bits),
                      st.integers(0, 300),
-                     st.sampled_from(edges),
+                     pick(edges),
                      st.integers(0, 300).map(lambda v: 2 ** bits - v))
 
 
 def seeds(n: int):
     return st.one_of(st.binary(min_size=n, max_size=n),
                      st.binary(min_size=n, max_size=n),
-                     st.sampled_from([b'\0' * n, b'\xff' * n,
+                     pick([b'\0' * n, b'\xff' * n,
                                       b'\0' * (n - 1) + b'\1',
                                       b'\x80' + b'\0' * (n - 1)])
                      ).map(bytes.hex)
@@ -466,9 +466,9 @@ def key_specs(tier: str, types=None):
     idx = RSA_IDX_QUICK if tier == 'quick' else RSA_IDX_THOROUGH
     pool = {
         'rsa': st.fixed_dictionaries({
-            't': st.just('rsa'), 'i': st.sampled_from(idx),
-            'e': st.sampled_from([65537, 65537, 65537, 3, 17, 2 ** 32 + 15]),
-            'swap': st.sampled_from([False] * 7 + [True])}),
+            't': st.just('rsa'), 'i': pick(idx),
+            'e': pick([65537, 65537, 65537, 3, 17, 2 ** 32 + 15]),
+            'swap': pick([False] * 7 + [True])}),
         'dsa': st.fixed_dictionaries({
             't': st.just('dsa'), 'g': st.integers(0, 1), 'x': scalars(160)}),
         'ed25519': st.fixed_dictionaries({
@@ -531,7 +531,7 @@ def line_comments():
         b = b.replace(b'\n', b'N').replace(b'\r', b'R')
         return {'b': b.hex()}
 
-    edge = st.sampled_from(['"quoted"', ' lead', 'trail ', '"', 'a "b" c',
+    edge = pick(['"quoted"', ' lead', 'trail ', '"', 'a "b" c',
                             'x:y', 'back\\', 'user@host', '  ', 'é€',
                             'a' * 100]).map(lambda s: {'s': s})
     return st.one_of(st.none(), edge.map(clean),
@@ -540,7 +540,7 @@ def line_comments():
 
 
 def passphrases(allow_none=True, min_size=0):
-    opts = [st.sampled_from(['pw', 'passphrase', 'pässwörd', 'p\U0001f600w',
+    opts = [pick(['pw', 'passphrase', 'pässwörd', 'p\U0001f600w',
                              'with space', 'x' * 70]).map(lambda s: {'s': s}),
             _tagged(st.text(min_size=min_size, max_size=12),
                     st.binary(min_size=min_size, max_size=12))]
@@ -554,7 +554,7 @@ def passphrases(allow_none=True, min_size=0):
     if min_size == 0:
         # an empty passphrase is not the same as no passphrase
         return st.one_of(base, base, base, base, base, base,
-                         st.sampled_from([{'s': ''}, {'b': ''}]))
+                         pick([{'s': ''}, {'b': ''}]))
 
     return base
 
@@ -1114,11 +1114,11 @@ def private_strategy(tier: str):
     @st.composite
     def build(draw):
         key = draw(key_specs(tier))
-        fmt = draw(st.sampled_from(PRIV_FORMATS * 6 + ['pkcs8-pem'] * 6 +
+        fmt = draw(pick(PRIV_FORMATS * 6 + ['pkcs8-pem'] * 6 +
                                    ['bogus']))
         pp = draw(passphrases())
 
-        rare = st.sampled_from([True] + [False] * 11)
+        rare = pick([True] + [False] * 11)
 
         if key['t'] in ('ed25519', 'ed448') and fmt.startswith('pkcs1') \
                 and not draw(rare):
@@ -1129,19 +1129,19 @@ def private_strategy(tier: str):
             pp = None       # only the refusal can be observed: keep it rare
 
         if fmt == 'pkcs1-pem':
-            cipher = draw(st.sampled_from(PKCS1_CIPHERS * 3 + ALL_CIPHERS))
+            cipher = draw(pick(PKCS1_CIPHERS * 3 + ALL_CIPHERS))
             hname, ver = 'sha256', 2
         elif draw(st.integers(0, 3)):
-            cipher, hname, ver = draw(st.sampled_from(MUST_OK))
+            cipher, hname, ver = draw(pick(MUST_OK))
         else:
-            cipher = draw(st.sampled_from(ALL_CIPHERS))
-            hname = draw(st.sampled_from(ALL_HASHES))
-            ver = draw(st.sampled_from([1, 2, 2, 3]))
+            cipher = draw(pick(ALL_CIPHERS))
+            hname = draw(pick(ALL_HASHES))
+            ver = draw(pick([1, 2, 2, 3]))
 
         text = fmt.endswith('pem') or fmt == 'openssh'
-        via = draw(st.sampled_from(['bytes', 'bytes', 'file'] +
+        via = draw(pick(['bytes', 'bytes', 'file'] +
                                    (['str'] if text else [])))
-        skip = draw(st.sampled_from([None, True, False])) \
+        skip = draw(pick([None, True, False])) \
             if key['t'] == 'rsa' else None
 
         if key['t'] == 'rsa' and key['i'] >= 4 and skip is not True and \
@@ -1152,7 +1152,7 @@ def private_strategy(tier: str):
                 'hash': hname, 'ver': ver,
                 'comment': draw(any_comments()), 'via': via,
                 'skipval': skip,
-                'wrong': draw(st.sampled_from(['none', 'append', 'prefix',
+                'wrong': draw(pick(['none', 'append', 'prefix',
                                                'type']))}
 
     return build()
@@ -1352,13 +1352,13 @@ def public_strategy(tier: str):
     @st.composite
     def build(draw):
         key = draw(key_specs(tier))
-        fmt = draw(st.sampled_from(PUB_FORMATS * 5 + ['rfc4716'] * 5 +
+        fmt = draw(pick(PUB_FORMATS * 5 + ['rfc4716'] * 5 +
                                    ['openssh'] * 3 + ['bogus']))
         comment = draw(line_comments())
 
         if key['t'] != 'rsa' and key['t'] != 'dsa' and \
                 fmt.startswith('pkcs1') and \
-                not draw(st.sampled_from([True] + [False] * 7)):
+                not draw(pick([True] + [False] * 7)):
             fmt = 'pkcs8' + fmt[5:]     # PKCS#1 has no EC/EdDSA public keys
 
         if fmt == 'openssh' and comment is not None:
@@ -1368,10 +1368,10 @@ def public_strategy(tier: str):
         text = fmt not in ('pkcs1-der', 'pkcs8-der')
         ascii_ok = text and (comment is None or
                              bytes.fromhex(comment['b']).isascii())
-        via = draw(st.sampled_from(['bytes', 'bytes', 'file'] +
+        via = draw(pick(['bytes', 'bytes', 'file'] +
                                    (['str'] if ascii_ok else [])))
         return {'key': key, 'fmt': fmt, 'comment': comment, 'via': via,
-                'src': draw(st.sampled_from(['private', 'converted',
+                'src': draw(pick(['private', 'converted',
                                              'public']))}
 
     return build()
@@ -1454,7 +1454,7 @@ def pyca_import_strategy(tier: str):
         key['swap'] = False if key['t'] == 'rsa' else None
         key = {k: v for k, v in key.items() if v is not None}
         t = key['t']
-        what = draw(st.sampled_from(['private', 'private', 'public']))
+        what = draw(pick(['private', 'private', 'public']))
         pp = None
         ssh_ok = t in ('rsa', 'dsa', 'ed25519') or \
             t == 'ec' and key['c'].startswith('nistp')
@@ -1468,7 +1468,7 @@ def pyca_import_strategy(tier: str):
             if ssh_ok:
                 opts += [('pem', 'openssh')]
 
-            enc, fmt = draw(st.sampled_from(opts))
+            enc, fmt = draw(pick(opts))
 
             if (enc, fmt) in (('pem', 'pkcs8'), ('der', 'pkcs8'),
                               ('pem', 'trad')):
@@ -1482,7 +1482,7 @@ def pyca_import_strategy(tier: str):
             if ssh_ok:
                 opts += [('openssh', 'openssh')]
 
-            enc, fmt = draw(st.sampled_from(opts))
+            enc, fmt = draw(pick(opts))
 
         return {'key': key, 'what': what, 'enc': enc, 'fmt': fmt, 'pp': pp,
                 'str': draw(st.booleans())}
@@ -1554,11 +1554,11 @@ def openssh_v1_strategy(tier: str):
         'key': key_specs(tier),
         'comment': any_comments(),
         'check': st.integers(0, 2 ** 32 - 1),
-        'corrupt': st.sampled_from([None, None, None, 'check', 'pad',
+        'corrupt': pick([None, None, None, 'check', 'pad',
                                     'nkeys']),
         'bit': st.integers(0, 255),
-        'padblocks': st.sampled_from([0, 0, 0, 1, 3]),
-        'wrap': st.sampled_from([70, 70, 64, 76])})
+        'padblocks': pick([0, 0, 0, 1, 3]),
+        'wrap': pick([70, 70, 64, 76])})
 
 
 # --------------------------------------------------------------------------
@@ -1669,9 +1669,9 @@ def run_multi(case) -> CaseResult:
 def multi_strategy(tier: str):
     @st.composite
     def build(draw):
-        kind = draw(st.sampled_from(['private', 'public']))
+        kind = draw(pick(['private', 'public']))
         n = draw(st.integers(1, 5))
-        nder = draw(st.sampled_from([0, 0, 0, 1, 2]))
+        nder = draw(pick([0, 0, 0, 1, 2]))
         pp = draw(passphrases(allow_none=False, min_size=1))
         types = None if tier != 'quick' else \
             ['rsa', 'dsa', 'ed25519', 'ed448', 'ec-nistp256', 'ec-nistp521',
@@ -1696,12 +1696,12 @@ def multi_strategy(tier: str):
                     fmts = ['openssh', 'pkcs8-pem'] + \
                         ([] if ed else ['pkcs1-pem'])
 
-                fmt = draw(st.sampled_from(fmts))
+                fmt = draw(pick(fmts))
                 comment = draw(any_comments())
 
                 if fmt in ('pkcs8-der', 'pkcs8-pem', 'pkcs1-pem'):
                     enc = draw(st.booleans())
-                    cipher = draw(st.sampled_from(['aes256-cbc', 'des3-cbc',
+                    cipher = draw(pick(['aes256-cbc', 'des3-cbc',
                                                    'aes128-cbc']))
             else:
                 pk1 = key['t'] in ('rsa', 'dsa')
@@ -1712,7 +1712,7 @@ def multi_strategy(tier: str):
                     fmts = ['openssh', 'openssh', 'rfc4716', 'pkcs8-pem'] + \
                         (['pkcs1-pem'] if pk1 else [])
 
-                fmt = draw(st.sampled_from(fmts))
+                fmt = draw(pick(fmts))
                 comment = draw(line_comments())
 
                 if fmt == 'openssh' and comment is not None:
@@ -1725,11 +1725,11 @@ def multi_strategy(tier: str):
                  ['', '', '\n', '# a comment line\n', '\n# x\n\n'])
             items.append({'key': key, 'fmt': fmt, 'comment': comment,
                           'enc': enc, 'cipher': cipher,
-                          'sep': draw(st.sampled_from(seps))})
+                          'sep': draw(pick(seps))})
 
         return {'kind': kind, 'items': items, 'pp': pp,
                 'pp_anyway': draw(st.booleans()),
-                'api': draw(st.sampled_from(['read_list', 'read_list',
+                'api': draw(pick(['read_list', 'read_list',
                                              'load']))}
 
     return build()
@@ -2135,7 +2135,7 @@ def cert_specs(tier: str, printable: bool = False, small_time: bool = False):
             st.text(st.characters(blacklist_characters=',',
                                   blacklist_categories=('Cs',)),
                     min_size=1, max_size=10).map(lambda s: s.strip() or 'p'),
-            st.sampled_from(['root', 'user@host', 'é', 'a b']))
+            pick(['root', 'user@host', 'é', 'a b']))
         cmd = st.text(st.characters(blacklist_categories=('Cs',)),
                       min_size=0, max_size=16)
 
@@ -2157,11 +2157,11 @@ def cert_specs(tier: str, printable: bool = False, small_time: bool = False):
     @st.composite
     def build(draw):
         va, vb = draw(times())
-        ctype = draw(st.sampled_from(['user', 'user', 'host']))
+        ctype = draw(pick(['user', 'user', 'host']))
         ext = {}
 
         for n in EXT_ORDER:
-            v = draw(st.sampled_from([None, None, True, False]))
+            v = draw(pick([None, None, True, False]))
 
             if v is not None:
                 ext[n] = v
@@ -2176,7 +2176,7 @@ def cert_specs(tier: str, printable: bool = False, small_time: bool = False):
             'valid_after': va, 'valid_before': vb,
             'force_command': draw(st.one_of(st.none(), cmd)),
             'source_address': draw(st.one_of(
-                st.none(), st.lists(st.sampled_from(NETS), max_size=3,
+                st.none(), st.lists(pick(NETS), max_size=3,
                                     unique=True))),
             'ext': ext if ctype == 'user' else {},
             'sig_alg': None, 'comment': 'default', 'key_comment': None,
@@ -2198,7 +2198,7 @@ def cert_strategy(tier: str):
         c = draw(cert_specs(tier))
 
         if ca['t'] == 'rsa':
-            c['sig_alg'] = draw(st.sampled_from([None, 'rsa-sha2-256',
+            c['sig_alg'] = draw(pick([None, 'rsa-sha2-256',
                                                  'rsa-sha2-512', 'ssh-rsa']))
 
         plain = st.text(st.characters(blacklist_characters=', ',
@@ -2216,15 +2216,15 @@ def cert_strategy(tier: str):
         c['comment'] = draw(st.one_of(st.just('default'), comments))
         va, vb = c['valid_after'], c['valid_before']
         nows = draw(st.lists(st.one_of(
-            st.sampled_from([va, max(va - 1, 0), vb, vb - 1,
+            pick([va, max(va - 1, 0), vb, vb - 1,
                              (va + vb) // 2]),
             st.integers(0, 2 ** 33)), min_size=1, max_size=3))
         principal = draw(st.one_of(
-            st.none(), st.sampled_from(c['principals'] + ['nobody'])))
+            st.none(), pick(c['principals'] + ['nobody'])))
         return {'ca': ca, 'subject': subject, 'cert': c,
-                'fmt': draw(st.sampled_from(['openssh', 'openssh',
+                'fmt': draw(pick(['openssh', 'openssh',
                                              'rfc4716'])),
-                'via': draw(st.sampled_from(['bytes', 'str', 'file'])),
+                'via': draw(pick(['bytes', 'str', 'file'])),
                 'nows': nows, 'principal': principal, 'line_safe': True,
                 'flip': draw(st.integers(0, 2 ** 20))}
 
@@ -2719,14 +2719,14 @@ def keygen_strategy(tier: str):
                                       blacklist_characters='#'),
                         min_size=1, max_size=12)
     words = st.lists(printable, min_size=1, max_size=3).map(' '.join)
-    kg_pp = st.one_of(st.sampled_from(['passw', 'pässwörd', 'with space']),
+    kg_pp = st.one_of(pick(['passw', 'pässwörd', 'with space']),
                       st.text(st.characters(blacklist_categories=('Cs',),
                                             blacklist_characters='\0'),
                               min_size=5, max_size=12))
 
     @st.composite
     def build(draw):
-        op = draw(st.sampled_from(['y'] * 5 + ['pub-i'] * 2 + ['pub-l'] +
+        op = draw(pick(['y'] * 5 + ['pub-i'] * 2 + ['pub-l'] +
                                   ['pub-e'] * 2 + ['convert'] * 3 +
                                   ['gen'] * 2 + ['hw'] * 2 + ['cert-L'] * 3 +
                                   ['cert-s'] * 3))
@@ -2735,7 +2735,7 @@ def keygen_strategy(tier: str):
 
             if key['t'] == 'rsa':
                 key['swap'] = False
-                key['i'] = draw(st.sampled_from(rsa_idx))
+                key['i'] = draw(pick(rsa_idx))
             elif key['t'] == 'ec':
                 # OpenSSH policy (sshkey_ec_validate_private): the scalar
                 # must be longer than half the order and below order - 1
@@ -2753,47 +2753,47 @@ def keygen_strategy(tier: str):
         if op == 'y':
             fmts = ['openssh'] + ([] if kind == 'ed' else
                                   ['pkcs1-pem', 'pkcs8-pem'] * 2)
-            fmt = draw(st.sampled_from(fmts))
+            fmt = draw(pick(fmts))
             pp = None
 
             if fmt != 'openssh' and draw(st.booleans()):
                 pp = {'s': draw(st.one_of(
-                    st.sampled_from(['pw', 'pässwörd']),
+                    pick(['pw', 'pässwörd']),
                     st.text(st.characters(blacklist_categories=('Cs',),
                                           blacklist_characters='\0'),
                             min_size=1, max_size=10)))}
 
             case.update(fmt=fmt, pp=pp,
-                        cipher=draw(st.sampled_from(PYCA_CIPHERS)),
-                        hash=draw(st.sampled_from(PBES2_HASHES)),
+                        cipher=draw(pick(PYCA_CIPHERS)),
+                        hash=draw(pick(PBES2_HASHES)),
                         comment=draw(st.one_of(st.none(), words)))
         elif op == 'pub-i':
             fmts = ['rfc4716'] + ([] if kind == 'ed' else ['pkcs8-pem']) + \
                 (['pkcs1-pem'] if kind == 'rsa' else [])
-            case.update(fmt=draw(st.sampled_from(fmts)),
+            case.update(fmt=draw(pick(fmts)),
                         comment=draw(st.one_of(st.none(), words)))
         elif op == 'pub-l':
-            case.update(hash=draw(st.sampled_from(['sha256', 'md5'])),
+            case.update(hash=draw(pick(['sha256', 'md5'])),
                         comment=draw(st.one_of(st.none(), words)))
         elif op == 'pub-e':
             fmts = ['RFC4716'] + ([] if kind == 'ed' else ['PKCS8', 'PEM'])
-            case.update(fmt=draw(st.sampled_from(fmts)),
+            case.update(fmt=draw(pick(fmts)),
                         str=draw(st.booleans()))
         elif op == 'convert':
             srcs = ['openssh'] + ([] if kind == 'ed' else ['trad', 'pkcs8'])
-            m = draw(st.sampled_from(['PEM', 'PKCS8', 'RFC4716']))
+            m = draw(pick(['PEM', 'PKCS8', 'RFC4716']))
             enc_ok = kind != 'ed' and m != 'RFC4716'
-            case.update(src=draw(st.sampled_from(srcs)), fmt=m,
+            case.update(src=draw(pick(srcs)), fmt=m,
                         newpp=draw(kg_pp) if enc_ok and draw(st.booleans())
                         else '')
         elif op == 'gen':
-            m = draw(st.sampled_from(['PEM', 'PKCS8', 'RFC4716']))
+            m = draw(pick(['PEM', 'PKCS8', 'RFC4716']))
             enc_ok = kind != 'ed' and m != 'RFC4716'
-            case.update(fmt=m, bits=draw(st.sampled_from([1024, 1024, 2048])),
+            case.update(fmt=m, bits=draw(pick([1024, 1024, 2048])),
                         newpp=draw(kg_pp) if enc_ok and draw(st.booleans())
                         else '', comment=draw(words))
         elif op == 'hw':
-            case.update(corrupt=draw(st.sampled_from([None, 'check', 'pad'])),
+            case.update(corrupt=draw(pick([None, 'check', 'pad'])),
                         check=draw(st.integers(0, 2 ** 32 - 1)),
                         bit=draw(st.integers(0, 255)), comment=draw(words))
         else:
@@ -2802,7 +2802,7 @@ def keygen_strategy(tier: str):
             c = draw(cert_specs('quick', printable=True, small_time=True))
 
             if ca['t'] == 'rsa':
-                c['sig_alg'] = draw(st.sampled_from(
+                c['sig_alg'] = draw(pick(
                     [None, 'rsa-sha2-256', 'rsa-sha2-512'] +
                     (['ssh-rsa'] if op == 'cert-L' else [])))
 
@@ -2819,13 +2819,13 @@ def keygen_strategy(tier: str):
             va, vb = c['valid_after'], c['valid_before']
             case.update(
                 ca=ca, cert=c,
-                cafmt=draw(st.sampled_from(['openssh', 'pkcs8-pem'] if
+                cafmt=draw(pick(['openssh', 'pkcs8-pem'] if
                                            ca['t'] != 'ed25519' else
                                            ['openssh'])),
-                nows=[draw(st.sampled_from([va, max(va - 1, 0), vb, vb - 1,
+                nows=[draw(pick([va, max(va - 1, 0), vb, vb - 1,
                                             (va + vb) // 2]))],
                 principal=draw(st.one_of(
-                    st.none(), st.sampled_from(c['principals'] +
+                    st.none(), pick(c['principals'] +
                                                ['nobody']))))
 
         return case
